@@ -18,6 +18,7 @@ class RealEnv(object):
     def __init__(self):
         import rpyc.lib.compat as compat     # the real PollingPoll (patch.install leaves rpyc.lib.compat.poll alone)
         self.socket = real_socket
+        self.os = os
         self.Poll = compat.PollingPoll
         self.tmp = tempfile.mkdtemp(prefix="verif-kconf-")
         self.n = 0
@@ -51,6 +52,7 @@ class SimEnv(object):
     def __init__(self, sim, kernel):
         self.sim = sim
         self.socket = net.make_socket_module()
+        self.os = net.FakeOS()
         self.Poll = net.Poll
         self.n = 0
 
@@ -354,7 +356,53 @@ def sc_getpeername_after_reset(env, fam):
     return r
 
 
-SCENARIOS = [("getpeername-after-reset", sc_getpeername_after_reset, ("tcp",)),
+def sc_pipe_masks(env, fam):
+    O = env.os
+    r, w = O.pipe()
+    res = {"idle": masks(env_fd(env, r), None)}
+    O.write(w, b"ab")
+    env.sleep(0.05)
+    res["data"] = masks(env_fd(env, r), None)
+    O.close(w)
+    env.sleep(0.05)
+    res["data+writer-closed"] = masks(env_fd(env, r), None)
+    res["read"] = bytes(O.read(r, 10)).decode()
+    res["drained+writer-closed"] = masks(env_fd(env, r), None)
+    res["read-at-eof"] = bytes(O.read(r, 10)).decode()
+    O.close(r)
+    r2, w2 = O.pipe()
+    res["writer-idle"] = masks(env_fd(env, w2), None, "w")
+    O.close(r2)
+    env.sleep(0.05)
+    res["writer, reader closed"] = masks(env_fd(env, w2), None, "w")
+    try:
+        O.write(w2, b"x")
+        res["write"] = "ok"
+    except OSError as e:
+        res["write"] = errname(e)
+    O.close(w2)
+    return res
+
+
+def env_fd(env, fd):
+    return (env, fd)
+
+
+_masks_sock = masks
+
+
+def masks(env, sock, mode="reh"):       # noqa: F811 - also accepts a raw descriptor: masks((env, fd), None, mode)
+    if isinstance(env, tuple):
+        env, fd = env
+        p = env.Poll()
+        p.register(fd, "r" if mode == "reh" else mode)
+        r = p.poll(0)
+        return "".join(sorted(r[0][1])) if r else ""
+    return _masks_sock(env, sock, mode)
+
+
+SCENARIOS = [("pipe-masks", sc_pipe_masks, ("tcp",)),
+             ("getpeername-after-reset", sc_getpeername_after_reset, ("tcp",)),
              ("eof-after-drain", sc_eof_after_drain, ("tcp", "unix")), ("closed-socket-ops", sc_closed_socket_ops, ("tcp",)),
              ("send-after-peer-close", sc_send_after_peer_close, ("tcp", "unix")), ("shutdown-wakes-reader", sc_shutdown_wakes_reader, ("tcp", "unix")),
              ("accept-timeout-and-inherit", sc_accept_timeout_and_inherit, ("tcp",)), ("listener-shutdown-wakes-accept", sc_listener_shutdown_wakes_accept, ("tcp",)),
